@@ -30,11 +30,21 @@ const nStreams = 6
 func gen(g *kernel.Rng, seed uint64, tier string) *kernel.Plan {
 	p := &kernel.Plan{Property: "C02", Seed: seed, Cfg: map[string]int64{}}
 	ns := g.Range(1, nStreams)
+	many := 0
+	if g.Bool(0.06) {
+		// many chunk streams alive at once (a reader's per-stream table must keep
+		// the header state of every one of them)
+		many = g.Range(50, 150)
+		ns = nStreams + many
+		p.Cfg["many"] = int64(many)
+		p.Cfg["manyBase"] = int64([]int{66, 300, 2000, 40000}[g.Intn(4)])
+		p.Cfg["manyStride"] = int64(g.Range(1, 7))
+	}
 	p.Cfg["cs0"] = 2
 	used := map[int64]bool{2: true}
 	for i := 1; i < nStreams; i++ {
 		c := csidPool[g.Intn(len(csidPool))]
-		for used[c] {
+		for used[c] || (many > 0 && c >= p.Cfg["manyBase"] && c <= p.Cfg["manyBase"]+int64(many)*p.Cfg["manyStride"]) {
 			c = int64(g.Range(3, 65599))
 		}
 		used[c] = true
@@ -47,9 +57,12 @@ func gen(g *kernel.Rng, seed uint64, tier string) *kernel.Plan {
 	p.Cfg["badAt"] = int64(g.Range(0, 12))
 	p.Cfg["badH"] = int64(g.Range(1, 3))
 	budget := int64(70000)
-	small := g.Bool(0.5)
+	small := g.Bool(0.5) || many > 0
 	if small {
 		budget = 3000
+	}
+	if many > 0 {
+		budget = 12000
 	}
 	if !small && (p.Cfg["rseg"] == simnet.SegOne || p.Cfg["rseg"] == simnet.SegSmall) {
 		p.Cfg["rseg"] = simnet.SegChunky
@@ -57,6 +70,9 @@ func gen(g *kernel.Rng, seed uint64, tier string) *kernel.Plan {
 	cs := int64(128)
 	last := map[int][4]int64{} // per stream: ts, delta, len, type
 	n := g.Range(1, 30)
+	if many > 0 {
+		n += ns
+	}
 	scsLeft := 3
 	for i := 0; i < n; i++ {
 		if scsLeft > 0 && g.Bool(0.12) {
@@ -66,6 +82,9 @@ func gen(g *kernel.Rng, seed uint64, tier string) *kernel.Plan {
 			continue
 		}
 		st := g.Intn(ns)
+		if many > 0 && i < ns {
+			st = i // every stream carries one message first, the revisits follow
+		}
 		typ := g.OneOf(8, 9, 18, 20, 15, 17, 4, 5, 6, 3, 22, int64(g.Range(7, 255)))
 		sid := g.OneOf(0, 1, 1, 1, 0xFFFFFFFF, int64(g.U32()))
 		var ts, ln int64
@@ -141,10 +160,16 @@ type trace struct {
 func build(p *kernel.Plan, tape *kernel.Tape) *trace {
 	t := &trace{ck: ref.NewChunker(), valid: true}
 	ck := t.ck
-	queues := make([][]kernel.Op, nStreams)
+	many := int(p.CD("many", 0))
+	if many < 0 || many > 4000 {
+		t.valid = false
+		return t
+	}
+	nS := nStreams + many
+	queues := make([][]kernel.Op, nS)
 	lastSID := map[int]uint32{}
 	for _, o := range p.Ops {
-		if o.T < 0 || o.T >= nStreams {
+		if o.T < 0 || o.T >= nS {
 			t.valid = false
 			return t
 		}
@@ -166,6 +191,9 @@ func build(p *kernel.Plan, tape *kernel.Tape) *trace {
 		queues[o.T] = append(queues[o.T], o)
 	}
 	csid := func(i int) uint32 {
+		if i >= nStreams {
+			return uint32(p.CD("manyBase", 66) + int64(i-nStreams)*p.CD("manyStride", 1))
+		}
 		c := p.CD(fmt.Sprintf("cs%d", i), int64(3+i))
 		if i == 0 {
 			c = 2
@@ -176,7 +204,11 @@ func build(p *kernel.Plan, tape *kernel.Tape) *trace {
 		return uint32(c)
 	}
 	seenCS := map[uint32]bool{}
-	for i := 0; i < nStreams; i++ {
+	for i := 0; i < nS; i++ {
+		if c := csid(i); c < 2 || c > 65599 {
+			t.valid = false
+			return t
+		}
 		if seenCS[csid(i)] {
 			t.valid = false
 			return t
@@ -216,7 +248,7 @@ func build(p *kernel.Plan, tape *kernel.Tape) *trace {
 	inject := func() bool {
 		switch bad {
 		case 1, 2:
-			for i := 0; i < nStreams; i++ {
+			for i := 0; i < nS; i++ {
 				if ck.Busy(csid(i)) {
 					s := ck.Streams[csid(i)]
 					if bad == 1 {
@@ -268,7 +300,7 @@ func build(p *kernel.Plan, tape *kernel.Tape) *trace {
 			}
 		}
 		var cand []int
-		for i := 0; i < nStreams; i++ {
+		for i := 0; i < nS; i++ {
 			if ck.Busy(csid(i)) || len(queues[i]) > 0 {
 				cand = append(cand, i)
 			}
